@@ -374,17 +374,21 @@ def r15_6(chk: Check):
 
 def rules(chk: Check) -> None:
     from . import c02, c03, c06
-    c02.r02_3(Remap(chk, {"R02.3": "R15.1"}))
-    c03.r03_2(Remap(chk, {"R03.2": "R15.2"}))
-    ex, out = c03.r03_1(Remap(chk, {}))
-    c03.r03_6(Remap(chk, {"R03.6": "R15.2"}), ex, out)
-    c03.r03_45(Remap(chk, {"R03.5": "R15.2"}))
-    c06.r06_2(Remap(chk, {"R06.2": "R15.3"}))
-    c06.r06_3(Remap(chk, {"R06.3": "R15.3"}, only=lambda r, k, w: k in ("class|Hydrodynamics", "class|template")))
-    c06.r06_4(Remap(chk, {"R06.4": "R15.3"}))
-    r15_4(chk)
-    r15_5(chk)
-    r15_6(chk)
+    chk.stage(c02.r02_3, Remap(chk, {"R02.3": "R15.1"}))
+    chk.stage(c03.r03_2, Remap(chk, {"R03.2": "R15.2"}))
+    r1 = chk.stage(c03.r03_1, Remap(chk, {}))
+    if r1 is not None:
+        chk.stage(c03.r03_6, Remap(chk, {"R03.6": "R15.2"}), r1[0], r1[1])
+    chk.stage(c03.r03_45, Remap(chk, {"R03.5": "R15.2"}))
+    chk.stage(c06.r06_2, Remap(chk, {"R06.2": "R15.3"}))
+    chk.stage(c06.r06_3, Remap(chk, {"R06.3": "R15.3"}, only=lambda r, k, w: k in ("class|Hydrodynamics", "class|template")))
+    chk.stage(c06.r06_4, Remap(chk, {"R06.4": "R15.3"}))
+    # the LTE solvers of both classes: sentinel conditions and root functions (shared with C05 R05.2 / R05.3 / R05.5)
+    from . import c05
+    chk.stage(c05.r05_23, Remap(chk, {"R05.2": "R15.8", "R05.3": "R15.8"}))
+    chk.stage(c05.r05_5, Remap(chk, {"R05.5": "R15.8"}))
+    for grp in (r15_4, r15_5, r15_6):
+        chk.stage(grp, chk)
     # both solvers are dimensionally homogeneous in the nucleation temperature (agreement 'for every Tn over five decades')
     from ..dimtable import TABLE
     from ..kinds import KindInference
@@ -407,3 +411,4 @@ def rules(chk: Check) -> None:
     chk.floor("R15.1", 7)
     chk.floor("R15.2", 17)
     chk.floor("R15.3", 12)
+    chk.floor("R15.8", 6)
